@@ -301,7 +301,7 @@ func stripQ(s string) string {
 }
 
 func gen(t *rapid.T) Case {
-	cfg := fsgen.Cfg{Absolute: rapid.Bool().Draw(t, "absolute"), AvoidUnwalked: rapid.IntRange(0, 3).Draw(t, "avoid") > 0, NoExtension: rapid.IntRange(0, 3).Draw(t, "noext") == 0, NullEntries: rapid.IntRange(0, 2).Draw(t, "nullentries") == 0, CallbackPathRefs: rapid.Bool().Draw(t, "cbpathrefs"), PathChains: true, PercentSpellings: true}
+	cfg := fsgen.Cfg{Absolute: rapid.Bool().Draw(t, "absolute"), AvoidUnwalked: rapid.IntRange(0, 3).Draw(t, "avoid") > 0, NoExtension: rapid.IntRange(0, 3).Draw(t, "noext") == 0, NullEntries: rapid.IntRange(0, 2).Draw(t, "nullentries") == 0, CallbackPathRefs: rapid.Bool().Draw(t, "cbpathrefs"), PathChains: true, PercentSpellings: true, CallbackFileCycles: true}
 	if os.Getenv("C02_DEBUG") != "" {
 		cfg.AvoidUnwalked = true
 	}
